@@ -18,7 +18,10 @@ var _ KeyBuilderContext = &subContext{}
 var subContextPool = slicepool.NewObjectPool[subContext](5)
 
 func (s *subContext) GetMatch(idx int) string {
-	if idx >= 0 && idx < len(s.vals) {
+	if idx < 0 { // not ours: let the enclosing context see the lookup (eg. the touch of {time live})
+		return s.parent.GetMatch(idx)
+	}
+	if idx < len(s.vals) {
 		return s.vals[idx]
 	}
 	return ""
